@@ -286,4 +286,9 @@ example : (bind (bind {} (str "unix:/p")).1 (str "foo")).2 = .refusedParse .noPr
     correspondence streams for an input on which the changed code violates the property. -/
 theorem modelled_code_unchanged : Varlink.Extracted.code_C19 = Varlink.ExpectedCode.code_C19 := by decide
 
+/-- no declaration (function, method, type, constant, variable) has been added to or removed from the
+    fingerprinted source files since the models were validated: a new method or `init` can change behaviour
+    without touching the text of any existing declaration -/
+theorem declarations_known : Varlink.Extracted.declarationSet = Varlink.ExpectedCode.declarationSet := by decide
+
 end Varlink.C19
